@@ -24,6 +24,8 @@ func runC18(c *Ctx) {
 	noNarrowingOfParsedNumbers(c, "C18.R7")
 	frameWritesAreSynchronous(c, "C18.R8")
 	responseWaitHasNoThirdExit(c, "C18.R9")
+	locksNeverCopied(c, "C18.R10", "lsp/jsonrpc2")
+	idFormsDecodedIntoTheirOwnTypes(c, "C18.R11")
 	p := c.pkg("lsp/jsonrpc2")
 	info := p.TypesInfo
 	bodies := funcBodies(p)
